@@ -272,6 +272,8 @@ def main():
         args.tier = rp.get("tier", args.tier)
         prop = rp.get("property", prop)
     PARTIAL[0] = bool(only) or bool(os.environ.get("VERIF_REPO"))   # development runs never touch the registered evidence
+    import harness.check as _as_module      # the library runner imports this file as a module: keep its flag in step
+    _as_module.PARTIAL[0] = PARTIAL[0]
     if prop in ENV_PROPS:
         rc = run_env_prop(prop, args.tier, seed, only)
     elif prop in LIB_PROPS:
